@@ -345,7 +345,7 @@ def register(M):
     def opt_unwrap_or_default(ev, fr, prog, fty, args, cx):
         o = args[0]
         return ev.branch(opt_is_some(o), lambda: opt_val(o),
-                         lambda: M.default_of(ev, prog, cx["ret_ty"]))
+                         lambda: M.default_of(ev, prog, cx["ret_ty"], fr.genv if fr else None))
 
     @reg("std::option::Option::<T>::ok_or_else")
     def opt_ok_or_else(ev, fr, prog, fty, args, cx):
@@ -850,7 +850,7 @@ def register(M):
     def entry_or_default(ev, fr, prog, fty, args, cx):
         ent = args[0]
         vt = fty["args"][1]
-        return entry_or_insert_impl(ev, ent, lambda: M.default_of(ev, prog, vt), is_default=True)
+        return entry_or_insert_impl(ev, ent, lambda: M.default_of(ev, prog, vt, fr.genv if fr else None), is_default=True)
 
     @reg("std::collections::HashMap::<K, V, S, A>::iter", "std::collections::HashSet::<T, S, A>::iter",
          "core::slice::<impl [T]>::iter", "std::iter::IntoIterator::into_iter")
